@@ -254,7 +254,20 @@ def p_full_nd(roi, shape):
     sel = X[roi]
     want = bool(np.size(sel) == X.size)
     got = roi_is_full(roi, shape)
-    return got is want, f"roi_is_full={got!r}, numpy selects {np.size(sel)} of {X.size} elements"
+    if got is not want:
+        return False, f"roi_is_full={got!r}, numpy selects {np.size(sel)} of {X.size} elements"
+    # the shape in every representation the library itself hands around: tuple, list, Shape2d (GeoBox.shape), numpy ints
+    reprs = []
+    if isinstance(shape, tuple):
+        reprs += [("list", list(shape)), ("numpy ints", tuple(np.int64(n) for n in shape))]
+        if len(shape) == 2:
+            from odc.geo.types import shape_
+            reprs.append(("Shape2d", shape_(shape)))
+    for name, sh in reprs:
+        g2 = roi_is_full(roi, sh)
+        if g2 is not want:
+            return False, f"roi_is_full={g2!r} with the shape given as {name} ({sh!r}), {want!r} with the tuple"
+    return True, f"roi_is_full={got!r}, numpy selects {np.size(sel)} of {X.size} elements"
 
 
 def p_empty_nd(roi, shape):
